@@ -1,10 +1,13 @@
 #!/bin/sh
-# tools/allseeds_lanes.sh [parallel] — every seeded change in its own lane (scratch copies of /repo and /verif),
+# tools/allseeds_lanes.sh [parallel] [glob] — every seeded change (or those matching the glob, e.g. 'C*-m[78]';
+# their lines in the log are replaced, the others kept) in its own lane (scratch copies of /repo and /verif),
 # the property's quick check, one line per seed in work/allseeds.log (format of tools/allseeds.sh).
 cd "$(dirname "$0")/.."
-P="${1:-4}"
-: > work/allseeds.log
-ls -d seeded/C*-m* | xargs -n1 basename | xargs -P "$P" -I{} sh -c '
+P="${1:-4}"; G="${2:-}"
+if [ -z "$G" ]; then : > work/allseeds.log; G='C*-m*'; else
+  for d in seeded/$G; do sed -i "/^$(basename $d) /d" work/allseeds.log; done
+fi
+ls -d seeded/$G | xargs -n1 basename | xargs -P "$P" -I{} sh -c '
   id={}; prop=$(echo $id | cut -c1-3)
   ./tools/lane.sh $id seeded/$id/patch.diff $prop quick >/dev/null 2>&1
   log=work/lanes/$id/check.log
